@@ -131,6 +131,13 @@ MixedDefaults ==
         <<Fld("s", ST1, "H.s")>>, <<Fld("p", i8, "d4")>>, <<Fld("q", f4, "d4"), Fld("s", ST1, "d5")>>,
         <<Fld("p", i4, "d4"), Fld("q", f8, "d5"), Fld("s", u8, "d4")>>}
 
+\* ALIASING between the arguments of one call: the per-field array default of a new field IS a column of the table it is
+\* added to (the new field has that column's type; documented result: a second field with the same data - the token of
+\* the column), alone and next to a scalar default
+AliasedDefaults ==
+    LET c1 == cur.fields[1]  cn == cur.fields[Len(cur.fields)]
+    IN {<<Fld("p", c1, c1.tok)>>, <<Fld("q", T("f8", <<>>, "<"), "d2"), Fld("p", cn, cn.tok)>>}
+
 \* descriptors of <= 2 new fields, with and without defaults; one that names an existing field;
 \* a new NESTED field (whose inner names exist at the top level: no clash, "a" inside "s" is not "a")
 AddSets ==
@@ -142,7 +149,7 @@ AddSets ==
     IN IF Lean THEN {<<p1>>, <<a0>>}
        ELSE {<<p0>>, <<p1>>, <<s0, p0>>, <<p1, q2>>, <<a0>>}
             \cup (IF First THEN {<<q2>>, <<p0, a0>>, <<q2, p1>>, <<s2>>} ELSE {})
-            \cup (IF First /\ MaxDepth = 1 THEN {<<q0, p0>>, <<p1, s2>>, <<Fld("s", ST2, "zero")>>} \cup MixedDefaults ELSE {})
+            \cup (IF First /\ MaxDepth = 1 THEN {<<q0, p0>>, <<p1, s2>>, <<Fld("s", ST2, "zero")>>} \cup MixedDefaults \cup AliasedDefaults ELSE {})
 \* the forms: a descr list / a dtype (one default: given bare) / a descr list with the defaults as numpy scalars
 Add == CanStep /\ \E d \in AddSets : \E f \in (IF First THEN {"descr", "dtype"} \cup (IF MaxDepth = 1 THEN {"descr_np"} ELSE {}) ELSE {"descr"}) :
           Step([Op("add", <<>>, TRUE, f) EXCEPT !.add = d])
@@ -152,20 +159,25 @@ CombineLists ==
     LET P == PoolNow
     IN IF Lean THEN {<<Cur, P.B>>, <<P.C, Cur, P.B, P.F>>, <<Cur, P.D>>}
        ELSE {<<Cur>>, <<Cur, P.B>>, <<P.B, Cur>>, <<Cur, P.B, P.C>>, <<P.C, Cur, P.B, P.F>>, <<Cur, P.D>>, <<Cur, P.E>>}
-       \cup (IF First THEN {<<Cur, P.C, P.F>>, <<Cur, P.B, P.C, P.F>>, <<P.E, Cur>>, <<Cur, P.B, P.E>>, <<Cur, P.F, P.D>>} ELSE {})
+       \cup (IF First THEN {<<Cur, P.C, P.F>>, <<Cur, P.B, P.C, P.F>>, <<P.E, Cur>>, <<Cur, P.B, P.E>>, <<Cur, P.F, P.D>>,
+                            <<Cur, Cur>>, <<P.B, Cur, P.B>>}                 \* the same array twice (every name is shared)
+             ELSE {})
 Combine == CanStep /\ \E l \in CombineLists : \E f \in (IF First THEN {"list", "tuple"} ELSE {"list"}) :
               Step([Op("combine", <<>>, TRUE, f) EXCEPT !.others = l])
 
 \* copy_fields(source, destination): into the current array, out of it, and between unequal sizes
-Copy == CanStep /\ \E l \in (IF Lean THEN {<<PoolNow.G, Cur>>} ELSE {<<PoolNow.G, Cur>>, <<Cur, PoolNow.G>>, <<PoolNow.E, Cur>>}) :
+\* ... and of an array into itself (source and destination are the same object: nothing changes)
+Copy == CanStep /\ \E l \in (IF Lean THEN {<<PoolNow.G, Cur>>} ELSE {<<PoolNow.G, Cur>>, <<Cur, PoolNow.G>>, <<PoolNow.E, Cur>>, <<Cur, Cur>>}) :
            Step([Op("copy", <<>>, TRUE, "list") EXCEPT !.others = l])
 
 CopyByName == CanStep /\ \E q \in (IF Lean THEN {<<cur.fields[1].name>>} ELSE InjSeqs(Symbols, IF First THEN 2 ELSE 1)) : \E f \in FormsFor(q) :
-                 \E vp \in (IF First /\ MaxDepth = 1 THEN {1, 2, 3} ELSE {1}) :   \* (2: a range-end value next to a float / text; 3: a per-field array)
+                 \* (2: a range-end value next to a float / text; 3: a per-field array; 4: the value IS the column it is assigned to)
+                 \E vp \in (IF First /\ MaxDepth = 1 THEN {1, 2, 3, 4} ELSE {1}) :
                  Step([Op("copy_by_name", q, TRUE, f) EXCEPT !.vals = [k \in DOMAIN q |->
                           CASE vp = 1 -> (IF k = 1 THEN "d1" ELSE "d3")
                             [] vp = 2 -> (IF k = 1 THEN "d4" ELSE "d2")
-                            [] vp = 3 -> (IF k = 1 THEN "H.p" ELSE "d1")]])
+                            [] vp = 3 -> (IF k = 1 THEN "H.p" ELSE "d1")
+                            [] vp = 4 -> (IF q[k] \in FONameSet(cur) THEN FOField(cur, q[k]).tok ELSE "d1")]])
 
 Split == CanStep /\ \/ \E q \in (IF Lean THEN {<<cur.fields[Len(cur.fields)].name>>, <<Missing>>} ELSE NameSeqs) : \E f \in FormsFor(q) : Step(Op("split", q, TRUE, f))
                     \/ Step(Op("split", <<>>, TRUE, "none"))
@@ -210,6 +222,7 @@ StepLaws == Stepped => LET E0 == FOExpected(prev, Last) IN (E0.err = "none" /\ ~
           LET dst == IF op.op = "copy" THEN FOOthers(a, op)[2] ELSE a IN
           /\ nb = FONames(dst)
           /\ \A k \in DOMAIN b.fields : [b.fields[k] EXCEPT !.tok = "-"] = [dst.fields[k] EXCEPT !.tok = "-"]
+    /\ (op.op = "copy" /\ op.others[1].id = op.others[2].id) => b = a              \* a copy into itself changes nothing
     /\ op.op = "split" => \A k \in DOMAIN E0.views : E0.views[k].tok = FOField(a, (IF op.form = "none" THEN na ELSE op.names)[k]).tok
 
 \* the documented rejections are rejections
@@ -220,6 +233,7 @@ RejectLaws == Stepped =>
     /\ (op.op = "remove" /\ FONameSet(prev) \subseteq VRange(op.names)) => E0.err = "rejected"
     /\ (op.op = "add" /\ \E k \in DOMAIN op.add : op.add[k].name \in FONameSet(prev)) => E0.err = "rejected"
     /\ (op.op = "combine" /\ \E k \in DOMAIN op.others : op.others[k].id = "E") => E0.err = "rejected"
+    /\ (op.op = "combine" /\ \E i, j \in DOMAIN op.others : i < j /\ op.others[i].id = op.others[j].id) => E0.err = "rejected"
 
 \* SIZE INDEPENDENCE (what lets wide tables be judged like small ones): cut the field sequence of the input anywhere
 \* (tables of more than 10 fields: after the 1st, the 8th, the middle and the last but one field);
